@@ -1136,10 +1136,15 @@ Proof.
   - rewrite <- (Qfloor_Z (N - 1)) at 2. apply Qfloor_resp_le. nra.
 Qed.
 
-Lemma bracket_count s a c : StronglySorted Z.lt s -> 0 <= a <= lenZ s - 1 -> bracket s a c = true ->
+(* tie-free up to double rounding: distinct decision values differ by more than 1e-15 relative
+   (automatic for integers below 5e14) *)
+Definition separated (d : list Z) : Prop :=
+  forall x y, In x d -> In y d -> x < y -> Z.abs x + Z.abs y < 10 ^ 15 * (y - x).
+
+Lemma bracket_count s a c : StronglySorted Z.lt s -> separated s -> 0 <= a <= lenZ s - 1 -> bracket s a c = true ->
   lenZ (filter (fun x => Qle_bool (inject_Z x) c) s) = a + 1.
 Proof.
-  intros Hs Ha Hb. unfold bracket in Hb. rewrite !andb_true_iff in Hb. destruct Hb as [[Hlo _] Hhi].
+  intros Hs Hsep Ha Hb. unfold bracket in Hb. rewrite !andb_true_iff in Hb. destruct Hb as [[Hlo _] Hhi].
   apply Qle_bool_iff in Hlo. unfold lenZ at 1. rewrite (count_sorted _ s (Z.to_nat a) Hs).
   - lia.
   - unfold lenZ in Ha. lia.
@@ -1148,7 +1153,11 @@ Proof.
     assert (E : Z.min (a + 1) (lenZ s - 1) = a + 1) by (unfold lenZ; lia). rewrite E in Hhi.
     assert (Hlt : nthZ s a < nthZ s (a + 1)).
     { unfold nthZ. apply sorted_nth_lt; [exact Hs|lia|lia]. }
-    apply orb_true_iff in Hhi. destruct Hhi as [Hhi|Hhi]; [|lia].
+    rewrite !orb_true_iff in Hhi. destruct Hhi as [[Hhi|Hhi]|Hhi]; [|lia|].
+    2:{ exfalso. unfold near_tie in Hhi. apply Z.leb_le in Hhi.
+        assert (Hx1 : In (nthZ s a) s) by (unfold nthZ; apply nth_In; lia).
+        assert (Hx2 : In (nthZ s (a + 1)) s) by (unfold nthZ; apply nth_In; lia).
+        pose proof (Hsep _ _ Hx1 Hx2 Hlt). lia. }
     apply qlt_bool_iff in Hhi.
     destruct (Qle_bool (inject_Z x) c) eqn:E2; [|reflexivity]. apply Qle_bool_iff in E2. exfalso.
     assert (H2 : (inject_Z (nthZ s (a + 1)) <= inject_Z x)%Q).
@@ -1165,20 +1174,20 @@ Definition count_near (N : Z) (pc : Q) (cnt : Z) : Prop :=
 Lemma pc_unit pc : (0 <= pc)%Q -> (pc <= 100)%Q -> (0 <= pc / 100)%Q /\ (pc / 100 <= 1)%Q.
 Proof. intros H0 H1. split; [apply Qle_shift_div_l; [reflexivity|lra]|apply Qle_shift_div_r; [reflexivity|lra]]. Qed.
 
-Lemma cut_ok_count s pc c : StronglySorted Z.lt s -> s <> [] -> cut_ok s pc c = true ->
+Lemma cut_ok_count s pc c : StronglySorted Z.lt s -> separated s -> s <> [] -> cut_ok s pc c = true ->
   count_near (lenZ s) pc (lenZ (filter (fun x => Qle_bool (inject_Z x) c) s)).
 Proof.
-  intros Hs Hne H. unfold cut_ok in H. rewrite !andb_true_iff in H. destruct H as [[H0 H1] H].
+  intros Hs Hsep Hne H. unfold cut_ok in H. rewrite !andb_true_iff in H. destruct H as [[H0 H1] H].
   apply Qle_bool_iff in H0, H1. destruct (pc_unit pc H0 H1) as [Hq0 Hq1].
   assert (HN : 1 <= lenZ s) by (destruct s; [congruence|unfold lenZ; cbn [length]; lia]).
   pose proof (vindex_range (lenZ s) (pc / 100) HN Hq0 Hq1) as Hj.
   unfold count_near. set (vi := (inject_Z (lenZ s - 1) * (pc / 100))%Q) in *. set (j := Qfloor vi) in *.
   rewrite !orb_true_iff in H. destruct H as [[H|H]|H].
-  - rewrite (bracket_count s j c Hs Hj H). split; [lia|]. intros _. reflexivity.
+  - rewrite (bracket_count s j c Hs Hsep Hj H). split; [lia|]. intros _. reflexivity.
   - rewrite !andb_true_iff in H. destruct H as [[Hg Hj1] Hb]. apply qlt_bool_iff in Hg.
-    rewrite (bracket_count s (j - 1) c Hs) by (try exact Hb; lia). split; [lia|]. intros [Hg1 _]. exfalso. lra.
+    rewrite (bracket_count s (j - 1) c Hs Hsep) by (try exact Hb; lia). split; [lia|]. intros [Hg1 _]. exfalso. lra.
   - rewrite !andb_true_iff in H. destruct H as [[Hg Hj1] Hb]. apply qlt_bool_iff in Hg.
-    rewrite (bracket_count s (j + 1) c Hs) by (try exact Hb; lia). split; [lia|]. intros [_ Hg1]. exfalso. lra.
+    rewrite (bracket_count s (j + 1) c Hs Hsep) by (try exact Hb; lia). split; [lia|]. intros [_ Hg1]. exfalso. lra.
 Qed.
 
 Lemma forallb2_Forall2 {A B} (f : A -> B -> bool) l m : forallb2 f l m = true -> Forall2 (fun a b => f a b = true) l m.
@@ -1199,7 +1208,7 @@ Definition labels_selector (honour : bool) (n : Z) (p : pspec) : pspec :=
   if honour then match p with PScalar q => if (2 <? n) && negb (Qeq_bool q (1 # 2)) then PList [] else p | _ => p end else p.
 
 (* C20_labels_class_sizes_partial: what generate_labels returns, for every answer of np.percentile within its contract *)
-Lemma gen_labels_o_spec honour d n p rperc rcuts y : gen_labels_o honour d n p rperc rcuts = Ok y -> NoDup d ->
+Lemma gen_labels_o_spec honour d n p rperc rcuts y : gen_labels_o honour d n p rperc rcuts = Ok y -> NoDup d -> separated d ->
   exists req rp rc, requested_percents honour n p = Some req /\
     rp = used_part n (labels_selector honour n p) rperc /\ rc = used_part n (labels_selector honour n p) rcuts /\
     y = map (label rc) d /\
@@ -1212,7 +1221,7 @@ Proof.
   fold (labels_selector honour n p).
   set (rp := used_part n (labels_selector honour n p) rperc). set (rc := used_part n (labels_selector honour n p) rcuts).
   destruct (forallb2 qclose rp req && forallb2 (cut_ok (sort d)) rp rc && (negb (qsortedb req) || qsortedb rc)) eqn:E; [|discriminate].
-  intros H Hnd. injection H as <-. rewrite !andb_true_iff in E. destruct E as [[E1 E2] E3].
+  intros H Hnd Hsep. injection H as <-. rewrite !andb_true_iff in E. destruct E as [[E1 E2] E3].
   exists req, rp, rc. split; [reflexivity|]. split; [reflexivity|]. split; [reflexivity|]. split; [reflexivity|].
   split; [apply forallb2_Forall2; exact E1|]. split.
   - apply forallb2_Forall2 in E2.
@@ -1222,7 +1231,8 @@ Proof.
     { intros E. assert (Hp : Permutation (sort d) d) by apply sort_perm. rewrite E in Hp. apply Permutation_nil in Hp. subst d. discriminate. }
     assert (HL : lenZ (sort d) = lenZ d) by (unfold lenZ; rewrite sort_length; reflexivity).
     eapply Forall2_weaken; [|exact E2]. cbv beta. intros pc c Hc.
-    pose proof (cut_ok_count (sort d) pc c Hs Hne Hc) as Hcn. rewrite HL in Hcn.
+    assert (Hsep' : separated (sort d)) by (intros x y Hx Hy; apply Hsep; apply sort_In; assumption).
+    pose proof (cut_ok_count (sort d) pc c Hs Hsep' Hne Hc) as Hcn. rewrite HL in Hcn.
     unfold lenZ at 2. rewrite (filter_length_perm _ d (sort d)) by (symmetry; apply sort_perm). exact Hcn.
   - intros Hq. rewrite Hq in E3. cbn [negb orb] in E3. apply qsortedb_sorted. exact E3.
 Qed.
@@ -1250,12 +1260,12 @@ Lemma Forall2_len {A B} (R : A -> B -> Prop) l m : Forall2 R l m -> length l = l
 Proof. induction 1; cbn [length]; congruence. Qed.
 
 (* C20_labels_cumulative_partial *)
-Lemma gen_labels_o_cumulative honour d n p rperc rcuts y : gen_labels_o honour d n p rperc rcuts = Ok y -> NoDup d ->
+Lemma gen_labels_o_cumulative honour d n p rperc rcuts y : gen_labels_o honour d n p rperc rcuts = Ok y -> NoDup d -> separated d ->
   exists req rp, requested_percents honour n p = Some req /\ Forall2 (fun a b => qclose a b = true) rp req /\
     (qsortedb req = true -> forall m, (m < length rp)%nat ->
        count_near (lenZ d) (nth m rp 0%Q) (lenZ (filter (fun yi => yi <=? Z.of_nat m) y))).
 Proof.
-  intros H Hnd. destruct (gen_labels_o_spec _ _ _ _ _ _ _ H Hnd) as [req [rp [rc [Hreq [_ [_ [Hy [Hcl [Hcn Hsrt]]]]]]]]].
+  intros H Hnd Hsep. destruct (gen_labels_o_spec _ _ _ _ _ _ _ H Hnd Hsep) as [req [rp [rc [Hreq [_ [_ [Hy [Hcl [Hcn Hsrt]]]]]]]]].
   exists req, rp. split; [exact Hreq|]. split; [exact Hcl|]. intros Hq m Hm. specialize (Hsrt Hq).
   assert (Hlen : length rc = length rp) by (symmetry; eapply Forall2_len; exact Hcn).
   rewrite Hy. rewrite labels_cumulative_count by (try exact Hsrt; lia).
@@ -1376,7 +1386,11 @@ Qed.
 Lemma zsum_counts_nonneg y L : 0 <= zsum (map (fun v => countZ v y) L).
 Proof. induction L as [|a r IH]; cbn [map zsum fold_right]; [lia|]. fold (zsum (map (fun v => countZ v y) r)). pose proof (countZ_nonneg a y). lia. Qed.
 Lemma NoDup_firstn {A} k (l : list A) : NoDup l -> NoDup (firstn k l).
-Proof. intros H. rewrite <- (firstn_skipn k l) in H. apply NoDup_app_remove_r in H. exact H. Qed.
+Proof.
+  revert l. induction k as [|k IH]; intros l H; [constructor|]. destruct l as [|a r]; [constructor|].
+  inversion H; subst. cbn [firstn]. constructor; [|apply IH; assumption].
+  intros Hin. apply firstn_incl in Hin. contradiction.
+Qed.
 Lemma firstn_map_c {A B} (f : A -> B) k l : firstn k (map f l) = map f (firstn k l).
 Proof. revert l. induction k as [|k IH]; intros [|a r]; cbn [firstn map]; try reflexivity. f_equal. apply IH. Qed.
 
@@ -1396,9 +1410,10 @@ Proof.
   { intros j Hj. assert (0 < countZ (Z.of_nat j) y); [|lia]. apply countZ_pos. apply uniq_In. apply Hin. exact Hj. }
   unfold upl. rewrite HK.
   rewrite (lookup_map_seq _ K 0 i) by (try lia; intros j Hj; cbn [fst]; apply Hnth; lia).
-  eexists. split; [reflexivity|]. cbn [snd]. apply dedup_nonempty. rewrite (Hc i Hi).
+  eexists. split; [reflexivity|]. cbn [snd]. rewrite (Hc i Hi).
   destruct cum.
   - (* repaired slices *)
+    apply dedup_nonempty.
     assert (Hlen : (i < length lc)%nat) by (unfold lc; rewrite map_length; lia).
     pose proof (zsum_firstn_S lc i Hlen) as ES. rewrite (Hc i Hi) in ES.
     assert (Hle : zsum (firstn (S i) lc) <= lenZ y).
@@ -1406,7 +1421,7 @@ Proof.
     assert (H0 : 0 <= zsum (firstn i lc)) by (unfold lc; rewrite firstn_map_c; apply zsum_counts_nonneg).
     pose proof (Hpos i Hi). apply pyslice_nonempty; lia.
   - (* slices as first read *)
-    specialize (H2 eq_refl). destruct i as [|i'].
+    specialize (H2 eq_refl). destruct i as [|i']; apply dedup_nonempty.
     + pose proof (Hpos 0%nat Hi) as Hp.
       assert (Hle : countZ 0 y <= lenZ y).
       { pose proof (counts_sum_le y [0] ltac:(repeat constructor; intros [])) as Hs. cbn [map zsum fold_right] in Hs. lia. }
@@ -1419,3 +1434,112 @@ Proof.
         specialize (Hs Hnd). lia. }
       apply pyslice_nonempty; lia.
 Qed.
+
+Lemma possible_spec lv lab x : In x (possible lv lab) -> exists i, (i < length lv)%nat /\ x = Z.of_nat i.
+Proof.
+  unfold possible. intros H. apply in_map_iff in H. destruct H as [i [<- Hi]]. apply filter_In in Hi. destruct Hi as [Hi _].
+  apply in_seq in Hi. exists i. split; [lia|reflexivity].
+Qed.
+Lemma possible_nonempty K lab : (2 <= K)%nat -> possible (zrange 0 K) lab <> [].
+Proof.
+  intros HK E. unfold possible in E. rewrite zrange_length in E.
+  assert (H : forall i, (i < K)%nat -> nth i (zrange 0 K) 0 <> lab -> False).
+  { intros i Hi Hne. assert (Hin : In (Z.of_nat i) (map (fun i => Z.of_nat i) (filter (fun i => negb (nth i (zrange 0 K) 0 =? lab)) (seq 0 K)))).
+    { apply in_map. apply filter_In. split; [apply in_seq; lia|]. apply negb_true_iff. apply Z.eqb_neq. exact Hne. }
+    rewrite E in Hin. destruct Hin. }
+  destruct (Z.eq_dec lab 0) as [->|Hn0].
+  - apply (H 1%nat); [lia|]. rewrite zrange_nth by lia. lia.
+  - apply (H 0%nat); [lia|]. rewrite zrange_nth by lia. lia.
+Qed.
+Lemma union_lookup_some keys d : (forall x, In x keys -> exists s, lookup x d = Some s) -> exists vals, union_lookup keys d = Some vals.
+Proof.
+  induction keys as [|k r IH]; intros H; [exists []; reflexivity|]. cbn [union_lookup].
+  destruct (H k (or_introl eq_refl)) as [s Hs]. rewrite Hs.
+  destruct IH as [t Ht]; [intros x Hx; apply H; now right|]. rewrite Ht. eexists. reflexivity.
+Qed.
+
+Lemma flip1_not_raises K d ysort inds ix col st :
+  (2 <= K)%nat ->
+  (forall i, (i < K)%nat -> exists s, lookup (Z.of_nat i) d = Some s /\ s <> []) ->
+  (exists i, (i < K)%nat /\ nthZ ysort ix = Z.of_nat i) ->
+  flip1 (zrange 0 K) d ysort inds ix col st <> Raises.
+Proof.
+  intros HK HD [i0 [Hi0 Hlab]]. unfold flip1.
+  set (poss := possible (zrange 0 K) (nthZ ysort ix)).
+  assert (Hposs : forall x, In x poss -> exists i, (i < K)%nat /\ x = Z.of_nat i).
+  { intros x Hx. destruct (possible_spec _ _ _ Hx) as [i [Hi ->]]. rewrite zrange_length in Hi. eauto. }
+  destruct (union_lookup_some poss d) as [vals Hv].
+  { intros x Hx. destruct (Hposs x Hx) as [i [Hi ->]]. destruct (HD i Hi) as [s [Hs _]]. eauto. }
+  rewrite Hv. rewrite Hlab. destruct (HD i0 Hi0) as [own [Ho _]]. rewrite Ho.
+  destruct (filter (fun v => negb (memZ v own)) vals) as [|w vals'].
+  - destruct poss as [|p0 pr] eqn:Ep; [exfalso; eapply possible_nonempty; [exact HK|exact Ep]|].
+    destruct st as [|[m l|v|hi k|l|m l] st1]; try discriminate.
+    destruct ((hi =? lenZ (p0 :: pr)) && in_range hi k) eqn:Ec; [|discriminate].
+    apply andb_true_iff in Ec. destruct Ec as [Eh Er]. apply Z.eqb_eq in Eh. unfold in_range in Er.
+    assert (Hin : In (nthZ (p0 :: pr) k) (p0 :: pr)) by (unfold nthZ; apply nth_In; unfold lenZ in Eh; lia).
+    destruct (Hposs _ Hin) as [i [Hi Ei]]. rewrite Ei. destruct (HD i Hi) as [s [Hs Hne]]. rewrite Hs.
+    destruct s as [|v0 vs]; [congruence|].
+    destruct st1 as [|[m l|v|hi' k'|l|m l] st2]; try discriminate. destruct (memZ v (v0 :: vs)); discriminate.
+  - destruct st as [|[m l|v|hi k|l|m l] st1]; try discriminate. destruct (memZ v (w :: vals')); discriminate.
+Qed.
+
+Lemma flips_not_raises K d ysort inds ixs : forall col st,
+  (2 <= K)%nat ->
+  (forall i, (i < K)%nat -> exists s, lookup (Z.of_nat i) d = Some s /\ s <> []) ->
+  (forall ix, In ix ixs -> exists i, (i < K)%nat /\ nthZ ysort ix = Z.of_nat i) ->
+  flips (zrange 0 K) d ysort inds ixs col st <> Raises.
+Proof.
+  induction ixs as [|ix r IH]; intros col st HK HD Hl; cbn [flips]; [discriminate|].
+  destruct (flip1 (zrange 0 K) d ysort inds ix col st) as [[col1 st1]| |] eqn:E1.
+  - apply IH; [exact HK|exact HD|intros x Hx; apply Hl; now right].
+  - exfalso. eapply flip1_not_raises; [exact HK|exact HD|apply Hl; now left|exact E1].
+  - discriminate.
+Qed.
+
+(* C20_noise_cat_progress: labels exactly 0..K-1 with K >= 2, the noise level admissible, and (for the slices as first read)
+   every class with at least two members: the call does not raise, whatever the RNG answers *)
+Lemma noise_cat_progress cum cols y p k inds st K :
+  uniq y = zrange 0 K -> (2 <= K)%nat -> p_ok (lenZ y) p = true ->
+  (cum = false -> forall lab, In lab (uniq y) -> 2 <= countZ lab y) ->
+  noise_cat cum cols y p k inds st <> Raises.
+Proof.
+  intros Hu HK Hp H2. unfold noise_cat. rewrite Hp. cbn [negb].
+  destruct (is_perm (lenZ y) inds && sortedb (map (nthZ y) inds)) eqn:E1; cbn [negb]; [|discriminate].
+  destruct (kflip_ok (lenZ y) p k); cbn [negb]; [|discriminate].
+  apply finish_not_raises. apply (res_cols_loop_not_raises _ (fun _ => True)); [|apply Forall_forall; auto].
+  intros c st0 _. unfold noise_col_cat.
+  destruct st0 as [|[m ixs|v|hi k'|l|m l] st1]; try discriminate.
+  destruct (idx_answer_ok (lenZ y) k m ixs) eqn:Ea; [|discriminate].
+  apply andb_true_iff in E1. destruct E1 as [E1 _]. unfold is_perm in E1. rewrite !andb_true_iff in E1. destruct E1 as [[EL Hin] _].
+  apply Z.eqb_eq in EL. rewrite forallb_forall in Hin.
+  unfold idx_answer_ok in Ea. rewrite !andb_true_iff in Ea. destruct Ea as [[_ Hr] _]. rewrite forallb_forall in Hr.
+  rewrite Hu at 1. apply flips_not_raises; [exact HK| |].
+  - intros i Hi. apply (upl_lookup cum _ y K i); [exact Hu|rewrite lenZ_map; exact EL|exact Hi|exact H2].
+  - intros ix Hix. specialize (Hr ix Hix). unfold in_range in Hr.
+    assert (Hy : In (nthZ (map (nthZ y) inds) ix) (uniq y)).
+    { apply uniq_In. unfold nthZ at 1. rewrite (nth_map_dflt _ _ _ 0) by (unfold lenZ in *; lia).
+      assert (Hii : In (nth (Z.to_nat ix) inds 0) inds) by (apply nth_In; unfold lenZ in *; lia).
+      specialize (Hin _ Hii). unfold in_range in Hin. unfold nthZ. apply nth_In. unfold lenZ in *. lia. }
+    rewrite Hu in Hy. apply zrange_In in Hy. exists (Z.to_nat (nthZ (map (nthZ y) inds) ix)). split; lia.
+Qed.
+
+(* the accumulated double 100/3 (audit finding): 10 tie-free values, n = 3, scalar p.  The recorded percents are
+   33.33333333333333 and 66.66666666666666, the virtual index 9 * 0.3333333333333333 falls just below 3, so the code's classes
+   are 3/3/4 where exact arithmetic (gen_labels) gives 4/3/3.  Both are within one element of 10/3. *)
+Example ex_labels_oracle :
+  let d := [10; 20; 30; 40; 50; 60; 70; 80; 90; 100] in
+  gen_labels_o false d 3 (PScalar (1 # 2))
+    [2345624805922133 # 70368744177664; 2345624805922133 # 35184372088832]
+    [5629499534213119 # 140737488355328; 4925812092436479 # 70368744177664] = Ok [0; 0; 0; 1; 1; 1; 2; 2; 2; 2] /\
+  gen_labels d 3 (PScalar (1 # 2)) = Some [0; 0; 0; 0; 1; 1; 1; 2; 2; 2].
+Proof. vm_compute. split; reflexivity. Qed.
+
+(* scalar p with n > 2 (audit finding): as first read the code ignores it; the proposed repair gives class 0 the proportion p *)
+Example ex_scalar_p_ignored :
+  requested_percents false 3 (PScalar (1 # 5)) = requested_percents false 3 (PScalar (1 # 2)) /\
+  (match requested_percents true 3 (PScalar (1 # 5)) with Some [a; b] => Qeq_bool a 20 && Qeq_bool b 60 | _ => false end) = true.
+Proof. vm_compute. split; reflexivity. Qed.
+
+Example ex_noise_progress_nonvacuous :
+  uniq [0; 1; 0; 1; 2; 2] = zrange 0 3 /\ p_ok 6 (1 # 2) = true /\ (forall lab, In lab (uniq [0; 1; 0; 1; 2; 2]) -> 2 <= countZ lab [0; 1; 0; 1; 2; 2]).
+Proof. split; [reflexivity|]. split; [reflexivity|]. intros lab H. cbn in H. destruct H as [<-|[<-|[<-|[]]]]; vm_compute; discriminate. Qed.
